@@ -208,6 +208,8 @@ def run(ctx):
     fallbacks(ctx)
     compositions(ctx)
     principal_sqrt(ctx)
+    scale_safety(ctx)
+    rep.floor('CX-7', 2)
     rep.floor('M0', 21)
     rep.floor('CFG-1', 30)
     rep.floor('CX-1', 7)
@@ -602,3 +604,64 @@ def principal_sqrt(ctx):
                 rep.ok('CX-6', sym, 'real part >= 0 and the imaginary part carries the sign of y', loc=loc, sample={'re': str(rs), 'im': str(is_)})
     if n == 0:
         rep.unk('CX-6', name, 'no non-trivial path')
+
+
+def degree(e, group):
+    """homogeneous degree of e under scaling of the symbols in `group` by a positive factor; None if not homogeneous"""
+    lam = sp.Symbol('lam', positive=True)
+    e = sp.sympify(e)
+    if not (e.free_symbols & set(group)):
+        return 0
+    el = e.subs({g: lam * g for g in group}, simultaneous=True)
+    q = timed(lambda: sp.simplify(el / e), 8, None)
+    if q is None:
+        return None
+    q = sp.powsimp(sp.powdenest(q, force=True))
+    if q == 1:
+        return 0
+    if q == lam:
+        return 1
+    b, ex = q.as_base_exp()
+    if b == lam and ex.is_number:
+        return ex
+    return None
+
+
+def scale_safety(ctx):
+    """CX-7: reciprocal and quotient must not form intermediates whose magnitude is quadratic in the scale of an operand
+    (|z|^2 overflows/underflows although 1/z is representable): every floating intermediate is homogeneous of degree
+    at most max(1, |degree of the result|) in each operand"""
+    rep = ctx.rep
+    for name, args, groups in (('a_complex_inv_', [], [[X, Y]]), ('a_complex_div_', [U, V], [[X, Y], [U, V]])):
+        try:
+            fn, dom, lv = run_inplace(ctx, 'complex', name, 'all', opaque={'a_complex_abs'}, extra_args=args, inline=lambda n: n != 'a_complex_abs')
+            if fn is None:
+                rep.unk('CX-7', name, 'anchor vanished')
+                continue
+            loc = fn.loc(fn.entry.instrs[0])
+            probs = []
+            nvals = 0
+            for lf in lv:
+                gr, gi = out(lf)
+                for gi_, group in enumerate(groups):
+                    dres = [degree(gr, group), degree(gi, group)]
+                    lim = max([1] + [abs(d) for d in dres if d is not None])
+                    for reg, v in sorted(lf.env.items()):
+                        if isinstance(v, (Ptr, tuple, list, bool)) or v is TOP or v is None:
+                            continue
+                        try:
+                            e = sp.sympify(v)
+                        except Exception:
+                            continue
+                        if not e.free_symbols:
+                            continue
+                        d = degree(e, group)
+                        nvals += 1
+                        if d is not None and abs(d) > lim:
+                            probs.append('%%%s = %s has degree %s in the scale of operand %d (result: %s)' % (reg, show(e), d, gi_ + 1, dres))
+            if probs:
+                rep.bad('CX-7', name, 'unscaled intermediate: ' + '; '.join(sorted(set(probs))[:2]), loc=loc, key='%s: scale safety' % name)
+            else:
+                rep.ok('CX-7', name, 'all %d floating intermediates stay within degree 1 of the operand scale (the squared modulus is never formed)' % nvals, loc=loc)
+        except Unsupported as e:
+            rep.unk('CX-7', name, str(e))
